@@ -129,5 +129,33 @@ RULE = ('virtual-clock schedules: 2-5 threads (+ first-time threads), statements
         'log calls injected at the yield points after the first cache refresh (Y1), after the clock read (Y2), between queue reads (Y3) and in the batch loop (Y4), soft limit 1 (always batch) to 8, '
         'grace 1000/5000 ticks, bounded blocking, bounded dropping and unbounded (growing) queues, bursts of 64-byte records that fill a node exactly with the hard limit on/around the node boundary; non-trivial = accepted statements from >= 2 threads with >= 3 distinct timestamps; the monitor applies when every accepted statement was committed within the grace period; distinct by case text')
 
-run = run_be(PID, 'Properties_C05', gen, monitor, nontrivial, RULE, n_quick=500, n_thorough=20000, corpus_cases=corpus_cases)
+def gen_stop_order(rng, facts):
+    """the shutdown drain writes in timestamp order too: 2-4 threads log with the clock moving between the calls (all
+    within the grace period), at least one of them more statements than the hard limit / the transit buffer holds (so its
+    queue is read in several passes of the drain) or more bytes than a queue node; a few polls may run before; then the
+    stop command (BackendWorker::_exit on the driver, the clock moving per loop iteration)"""
+    nt = rng.randint(2, 4)
+    soft = rng.choice([1, 2, 4]); hard = rng.choice([h for h in (2, 4, 8) if h >= soft])
+    g = rng.choice([1000, 5000])
+    c = Case(dropping=rng.choice([0, 2, 2]), capk=rng.choice([8, 10]), tinit=rng.choice([2, 4]), soft=soft, hard=hard, grace=g, facts=facts)
+    order = list(range(nt)); rng.shuffle(order)
+    for t in order:
+        n = rng.choice([1, 2, hard - 1, hard, hard + 1, 2 * hard + 1, 3 * hard]) if rng.random() < 0.8 else rng.randint(1, 12)
+        for _ in range(max(1, n)):
+            c.log(t, pad=rng.choice([0, 0, 19])); c.tick(1)
+        if rng.random() < 0.2: c.poll()
+    if rng.random() < 0.3:
+        for _ in range(rng.randint(1, 3)): c.poll()
+    c.mark_tail()
+    c.stop(rng.choice([g // 3, g, 5 * g]))
+    c.ctx()
+    return c
+
+
+def stop_phase(ck, tier, broken):
+    from be_check import be_driver_phase
+    return be_driver_phase(ck, tier, gen_stop_order, monitor, 300, 10000, 'M-BE exit_drain vs BackendWorker::_exit on the backend driver (timestamp order of the shutdown drain)')
+
+
+run = run_be(PID, 'Properties_C05', gen, monitor, nontrivial, RULE, n_quick=500, n_thorough=20000, corpus_cases=corpus_cases, extra_phase=stop_phase)
 replay = replay_be(PID, monitor)
